@@ -187,6 +187,7 @@ Definition c05_is (c : c05_case) : bool :=
       match o with
       | ODied => false
       | OErr => negb (try_outermost k)
-      | OVal | OCatch => negb ((no_try k && surely_faulting l) || guard_must_fire l)    (* a fault must not vanish into a (truncated) value *)
+      | OVal => negb ((no_try k && surely_faulting l) || guard_must_fire l)    (* a fault must not vanish into a (truncated) value *)
+      | OCatch => negb (no_try k && surely_faulting l)
       end
   end.
